@@ -14,7 +14,8 @@
 (***************************************************************************)
 EXTENDS Integers, Sequences, FiniteSets, TLC, Json, IOUtils
 
-CONSTANTS MaxT0, MaxDt, MaxSpan     \* bounds in ticks
+CONSTANTS MaxT0, MaxDt, MaxSpan,    \* bounds in ticks
+          BigT0                     \* additional large initial times in ticks (restarts: t1 - t0 cancels in floating point)
 
 VARIABLES t0, t1, dt, m     \* m: number of accepted steps (m = N for a complete run)
 
@@ -27,7 +28,7 @@ NCeil(a, b, d) == ((b - a) + d - 1) \div d
 
 Grid(a, d, n) == [k \in 0..n |-> a + k * d]
 
-Init == /\ t0 \in 0..MaxT0
+Init == /\ t0 \in (0..MaxT0) \cup BigT0
         /\ dt \in 1..MaxDt
         /\ t1 \in (t0 + 1)..(t0 + MaxSpan)
         /\ m \in {NCeil(t0, t1, dt)} \cup {k \in 0..2 : k < NCeil(t0, t1, dt)}
